@@ -124,6 +124,10 @@ func (c *RawClient) credSetters(op *Op, withAuth bool) (pre []stun.Setter, post 
 		if c.firstNonce != "" {
 			nonce = c.firstNonce
 		}
+	case "appendnonce":
+		// signed over a nonce this server never issued; a current one is appended behind
+		// MESSAGE-INTEGRITY (see post below): the request is judged by the nonce it was signed with
+		nonce = "ee" + hex.EncodeToString(NewRNG(Mix(c.W.P.Seed, uint64(op.ID), 7)).Bytes(10))
 	case "wrongrealm":
 		realm += "x"
 	case "othernonce":
@@ -147,6 +151,11 @@ func (c *RawClient) credSetters(op *Op, withAuth bool) (pre []stun.Setter, post 
 	}
 	pre = append(pre, stun.NewLongTermIntegrity(user, realm, pass))
 	switch mode {
+	case "appendnonce":
+		fresh := c.nonce
+		post = func(m *stun.Message) {
+			m.Add(stun.AttrNonce, []byte(fresh))
+		}
 	case "flipmi":
 		post = func(m *stun.Message) { corruptMI(m, false) }
 	case "truncmi":
